@@ -266,7 +266,176 @@ def check_C01(tier, seed):
                         rule="sessions Build, Encode(s), Decode(s), Compare, Encode(DER) for every syntax s (thorough: all ordered pairs of syntaxes as transcoding chains) over every (type, value) of the universe; distinct = distinct (module, type, value)")
 
 
-CHECKS = {"C01": check_C01, "C02": check_C02, "C03": check_C03, "C04": check_C04, "C05": check_C05, "C06": check_C06, "C07": check_C07, "C08": check_C08, "C14": check_C14}
+# ---- helper APIs (C16, C17) ---------------------------------------------------------------
+HELPER_MOD = {"name": "HLP", "tagging": "EXPLICIT", "defs": [
+    {"n": "HI", "t": {"k": "INTEGER", "c": {"op": "none"}}}, {"n": "HR", "t": {"k": "REAL"}},
+    {"n": "HO", "t": {"k": "OID"}}, {"n": "HRO", "t": {"k": "RELOID"}},
+    {"n": "HG", "t": {"k": "STRING", "st": "GeneralizedTime", "size": {"op": "none"}, "alpha": []}},
+    {"n": "HU", "t": {"k": "STRING", "st": "UTCTime", "size": {"op": "none"}, "alpha": []}}]}
+ASSUME_HELPERS = ["Helpers.tla (X.690 8.3, 8.5/11.3, 8.19, civil calendar) is the reference", "TLC, the Json module, the python glue",
+                  "LP64: long = intmax_t = 64 bit; the driver passes raw octets / decimal text only",
+                  "boundary-biased finite argument sets (spec/MC_Helpers.tla), not all values"]
+
+
+def big_of_dec(s):
+    from asn1gen import int_to_big
+    return int_to_big(int(s))
+
+
+def dec_of_big(b):
+    from asn1gen import big_to_int
+    return str(big_to_int(b))
+
+
+def nat_of_mag(m):
+    n = 0
+    for o in m:
+        n = n * 256 + o
+    return n
+
+
+def mag_of_nat(n):
+    out = []
+    while n:
+        out.append(n & 255)
+        n >>= 8
+    return out[::-1]
+
+
+def helper_line(c):
+    op = c["op"]
+    if op == "int2c":
+        return "int2c %d %s %s" % (c["id"], c["ty"], dec_of_big(c["x"]))
+    if op == "c2int":
+        return "c2int %d %s %s" % (c["id"], c["ty"], bytes(c["o"]).hex())
+    if op == "d2r":
+        return "d2r %d %s" % (c["id"], bytes(c["d"]).hex())
+    if op == "num":
+        return "num %d %s %s" % (c["id"], c["ty"], bytes(c["txt"]).decode())
+    if op in ("setarcs", "parse"):
+        return "%s %d %s" % (op, c["id"], ".".join(str(nat_of_mag(a)) for a in c["arcs"]))
+    if op == "getarcs":
+        return "getarcs %d %d %s" % (c["id"], c["slots"], ".".join(str(nat_of_mag(a)) for a in c["arcs"]))
+    if op == "time":
+        return "time %d %d %d %s %s" % (c["id"], c["days"], c["sod"], bytes(c["frac"]).decode() or "-", c["tz"])
+    raise Infra("helper op " + op)
+
+
+def helper_event(ev):
+    ev = dict(ev)
+    for k in ("octets", "gt", "ut"):
+        if k in ev:
+            ev[k] = list(bytes.fromhex(ev[k]))
+    op = ev.get("op")
+    if op in ("int2c",):
+        ev["back"] = big_of_dec(ev["back"])
+    if op in ("c2int", "num"):
+        ev["v"] = big_of_dec(ev["v"])
+    if op == "d2r":
+        ev["back"] = list(bytes.fromhex(ev["back"]))
+    if op in ("setarcs", "getarcs", "parse"):
+        ev["back"] = [mag_of_nat(int(a)) for a in ev["back"]]
+    return ev
+
+
+def run_helper_driver(b, calls):
+    import subprocess, tempfile, shutil
+    work = tempfile.mkdtemp(prefix="hlp-", dir=lib.SCRATCH)
+    events, todo = [], list(calls)
+    try:
+        while todo:
+            sp, ep = os.path.join(work, "s"), os.path.join(work, "e")
+            open(sp, "w").write("\n".join(helper_line(c) for c in todo) + "\n")
+            r = subprocess.run([b.driver, sp, ep], stdout=subprocess.PIPE, stderr=subprocess.STDOUT, text=True, errors="replace", timeout=900,
+                               env=dict(os.environ, ASAN_OPTIONS="detect_leaks=0:abort_on_error=1", UBSAN_OPTIONS="halt_on_error=1:abort_on_error=1"))
+            got = []
+            for line in open(ep, errors="replace"):
+                try:
+                    got.append(json.loads(line))
+                except ValueError:
+                    pass
+            events += got
+            if r.returncode == 0:
+                break
+            last = got[-1]["id"] if got else todo[0]["id"]
+            if not got or got[-1]["a"] == "Call":
+                # died inside the call after `last` (its line was not completed)
+                ids = [c["id"] for c in todo]
+                nxt = ids.index(last) + 1 if got else 0
+                if nxt < len(todo):
+                    events.append({"id": todo[nxt]["id"], "a": "Crash", "sig": r.returncode, "detail": r.stdout[-600:]})
+                    todo = todo[nxt + 1:]
+                else:
+                    break
+            else:
+                ids = [c["id"] for c in todo]
+                todo = todo[ids.index(last) + 1:]
+    finally:
+        shutil.rmtree(work, ignore_errors=True)
+    return events
+
+
+def helper_family(prop, tier, seed, families, rule):
+    t0 = time.time()
+    res = Result(prop)
+    known = lib.load_findings(prop)
+    M = Module(HELPER_MOD)
+    b = lib.build_module(M, san="asan", driver_src=os.path.join(lib.VERIF, "harness", "driver", "helper_driver.c"), wrap=False)
+    if not b.ok:
+        raise Infra("helper driver does not build: %s %s" % (b.err, b.asn1c_out[-500:]))
+    for fam in families:
+        consts = ['Family = "%s"' % fam, "Dense = %s" % ("TRUE" if tier == "thorough" else "FALSE")]
+        _, calls, st = lib.generate("MC_Helpers", consts, ["RefSound", "Export"])
+        res.states += st["distinct"]
+        res.transitions += st["states"]
+        evs = [helper_event(e) for e in run_helper_driver(b, calls)]
+        mism, tot = lib.judge("MC_Helpers", None, calls, evs, constants=consts, shards=8 if len(calls) > 3000 else 2)
+        mism = expand(mism)
+        res.states += tot["distinct"]
+        res.transitions += tot["states"]
+        res.sessions += len(calls)
+        res.events += tot["events"]
+        byid = {c["id"]: c for c in calls}
+        evid = {e["id"]: e for e in evs}
+        for c in calls:
+            res.distinct.add(json.dumps({k: v for k, v in c.items() if k != "id"}, sort_keys=True))
+        if calls and len(res.samples) < 5:
+            c0 = calls[len(calls) // 2]
+            res.samples.append({"call": c0, "event": evid.get(c0["id"])})
+        for m in mism:
+            c = byid[m["id"]]
+            sig = {"op": c["op"], "ty": c.get("ty"), "reason": m["reason"], "family": fam}
+            f = None
+            for kf in known:
+                alts = kf["match"] if isinstance(kf["match"], list) else [kf["match"]]
+                for alt in alts:
+                    mt = dict(alt)
+                    pred = mt.pop("pred", None)
+                    if "op" not in mt:
+                        continue
+                    if lib.finding_matches({"match": mt}, sig) and (not pred or F.HPREDS[pred](c, evid.get(m["id"], {}))):
+                        f = kf
+            if f:
+                res.known[f["id"]] = res.known.get(f["id"], 0) + 1
+            else:
+                res.violations.append((sig, {"property": prop, "signature": sig, "helper": True, "family": fam, "call": c,
+                                             "event": evid.get(m["id"]), "constants": consts}))
+        log("%s family %s: %d calls, %d violations so far, %.0fs" % (prop, fam, len(calls), len(res.violations), time.time() - t0))
+    return finish(res, tier, seed, "model_checking", t0, rule, ASSUME_HELPERS)
+
+
+def check_C16(tier, seed):
+    return helper_family("C16", tier, seed, ["int", "real", "num"],
+                         "calls enumerated by TLC from spec/MC_Helpers.tla: every boundary integer of each C type through asn_<ty>2INTEGER and back; INTEGER contents (all 1-octet strings, 2-octet boundary set / all in thorough, sign-padded forms up to 10 octets of every edge value) through asn_INTEGER2<ty>; doubles for a set of (thorough: all 2048) biased exponents x 7 mantissa patterns x 2 signs plus specials and subnormals through asn_double2REAL and back; numerals around every overflow boundary, with leading zeros, through the four strto*_lim parsers")
+
+
+def check_C17(tier, seed):
+    return helper_family("C17", tier, seed, ["oid", "time"],
+                         "arc vectors with every valid first pair x boundary arcs up to 2^32-1: set_arcs (octets = X.690 8.19), get_arcs with enough and with too few slots, parse of the dotted text; time_t at calendar edges (epoch, leap days, century rules, 2038, 2106, years 1 and 9999) x seconds of day x fractional digits x 8 POSIX TZ settings (half-hour, 45-minute, DST, +14h): forced-GMT GeneralizedTime / UTCTime text and back")
+
+
+CHECKS = {"C01": check_C01, "C02": check_C02, "C03": check_C03, "C04": check_C04, "C05": check_C05, "C06": check_C06, "C07": check_C07, "C08": check_C08, "C14": check_C14,
+          "C16": check_C16, "C17": check_C17}
 
 
 def replay(prop, path):
